@@ -1327,11 +1327,13 @@ int ov_raw_seek(OggVorbis_File *vf,ogg_int64_t pos){
               int i,link=vf->current_link;
               ogg_int64_t granulepos=op.granulepos-vf->pcmlengths[link*2];
               if(granulepos<0)granulepos=0;
+              /* rewind to the first queued packet within this link */
+              granulepos-=accblock;
+              if(granulepos<0)granulepos=0;
 
               for(i=0;i<link;i++)
                 granulepos+=vf->pcmlengths[i*2+1];
-              vf->pcm_offset=granulepos-accblock;
-              if(vf->pcm_offset<0)vf->pcm_offset=0;
+              vf->pcm_offset=granulepos;
               break;
             }
             lastblock=thisblock;
